@@ -82,6 +82,13 @@ func c08(args []string) error {
 			cs.model, cs.rmamb, cs.gapmode = 1, true, 0
 		}
 		A, class := runDist(cs, 1)
+		if class == OutDiverge || class == OutPanic {
+			// the call must always return: recorded as a case that did not
+			cb := *cs
+			cb.matrix, cb.class = [][]float64{}, class
+			emit("one worker: DistMatrix did not return ("+class+")", 4, 1, nil, [][]float64{}, &cb, false, false)
+			continue
+		}
 		if class != OutOk {
 			continue
 		}
@@ -287,7 +294,7 @@ func c08(args []string) error {
 func saturatedC08(r *rand.Rand) *c07case {
 	cs := &c07case{}
 	m := 1 + r.Intn(3)
-	na, nb, nc := 6+r.Intn(8), 6+r.Intn(8), 1+r.Intn(3)
+	na, nb, nc := 6+r.Intn(11), 6+r.Intn(11), 1+r.Intn(3) // up to 256 saturated pairs
 	cs.model = 2
 	unitA, unitB := "AAAA", "ACGT"
 	if r.Intn(3) == 0 {
